@@ -77,9 +77,10 @@ def build_trxcon(run):
     if getattr(run, "c11_trxcon", None):
         return run.c11_trxcon
     inc = [mframe.SHIM_TRXCON, mframe.TRXCON_INC]
-    o1 = cbuild.obj(run, os.path.join(vf.REPO, TRX_SRC), "c11_sched_mframe", includes=inc, flags=cbuild.CONSOLE_FLAGS)
+    # sched_mframe.c and whatever files of its directory hold layouts[] / frame tables in this tree
+    o1 = [cbuild.obj(run, p, "c11_sched_mframe%d" % i, includes=inc, flags=cbuild.CONSOLE_FLAGS) for i, p in enumerate(mframe.trxcon_sources())]
     o2 = cbuild.obj(run, os.path.join(vf.ROOT, "harness/c/c11_trxcon_harness.c"), "c11_trxcon_harness", includes=inc)
-    run.c11_trxcon = cbuild.link(run, [o2, o1, cbuild.console_sink(run)], "c11_trxcon_harness.bin")
+    run.c11_trxcon = cbuild.link(run, [o2] + o1 + [cbuild.console_sink(run)], "c11_trxcon_harness.bin")
     return run.c11_trxcon
 
 
